@@ -89,6 +89,9 @@ structure GenFormat where
   payloadAcc  : List (String × String)   -- (function, header type) of `return pdu->payload;`
   algorithmic : List (String × String)   -- (function, AST digest): hand-modelled elsewhere
   opaqueFns   : List (String × String)   -- (function, reason): shape not understood
+  /-- per algorithmic function: width of its return type and, for each `memset` it contains,
+      the element size its destination pointer arithmetic is scaled by -/
+  algoFacts   : List (String × Nat × List Nat)
   statics     : List (String × String × Bool)  -- (object, type, const-qualified) with static storage
   header      : String                   -- the format's public header
   /-- constants the C compiler evaluates in a TU that includes just that header:
